@@ -130,6 +130,15 @@ func runC13(e *env) error {
 		)
 		fixedWalks := []string{"map Nested.Label.Oops Name", "map Nested.PP.V Name", "map Nested.PP.Next.V Name", "map Nested.N.X Name", "map Nested.Fn.X Name",
 			"map Nested.Ch.X Name", "map Nested.NN.X Name", "map P.Q.Z Name", "map P.M.Z Name", "map P.A.Z Name", "map Name.X Name", "map P.Q Name", "map Nested.Label Name"}
+		// field settings on degenerate structs: targets without fields, names that miss by one letter, empty names
+		g.Decls = append(g.Decls,
+			&tygen.Decl{Name: "EmptyS", Under: tygen.Raw{Text: "struct{}"}}, &tygen.Decl{Name: "EmptyT", Under: tygen.Raw{Text: "struct{}"}},
+			&tygen.Decl{Name: "OneS", Under: tygen.Raw{Text: "struct{ Name string }"}}, &tygen.Decl{Name: "OneT", Under: tygen.Raw{Text: "struct{ Name string }"}},
+			&tygen.Decl{Name: "HidT", Under: tygen.Raw{Text: "struct{ name string }"}})
+		fixedSettings := [][3]string{{"OneS", "EmptyT", "ignore Name"}, {"OneS", "EmptyT", "map Name Name"}, {"EmptyS", "EmptyT", "ignore X"}, {"EmptyS", "EmptyT", "map . X"},
+			{"OneS", "EmptyT", "autoMap Name"}, {"OneS", "OneT", "ignore Nmae"}, {"OneS", "OneT", "map Name Nam"}, {"OneS", "OneT", "map Nam Name"}, {"OneS", "HidT", "ignore Name"},
+			{"OneS", "HidT", "map Name name"}, {"EmptyS", "OneT", "ignore Name NAME"}, {"*OneS", "*EmptyT", "ignore Name"}, {"[]OneS", "[]EmptyT", "ignore Name"},
+			{"OneS", "EmptyT", "map Name X | strings.ToUpper"}, {"OneS", "EmptyT", "default NewEmptyT"}, {"EmptyS", "EmptyT", "ignoreMissing"}, {"OneS", "OneT", "map  Name"}}
 		fixedPairs := [][2]string{{"RecA", "RecB"}, {"MutA", "MutC"}, {"ErrBox", "ErrBox2"}, {"*RecA", "RecB"}, {"[]MutA", "[]*MutC"}, {"error", "error"}, {"any", "any"}, {"ErrBox", "ErrBox"}}
 		for i := 0; i < perBatch; i++ {
 			name := fmt.Sprintf("C%d", i)
@@ -139,6 +148,8 @@ func runC13(e *env) error {
 				src, tgt = fixedPairs[i][0], fixedPairs[i][1]
 			} else if i < len(fixedPairs)+len(fixedWalks) {
 				src, tgt, walked = "PathBox", "PathOut", fixedWalks[i-len(fixedPairs)]
+			} else if k := i - len(fixedPairs) - len(fixedWalks); k < len(fixedSettings) {
+				src, tgt, walked = fixedSettings[k][0], fixedSettings[k][1], fixedSettings[k][2]
 			} else {
 				s := g.Type(1 + r.Intn(3))
 				var t tygen.T
